@@ -5,6 +5,6 @@ cd "$(dirname "$0")"
 export CARGO_NET_OFFLINE=true CARGO_TARGET_DIR="$PWD/build/target"
 mkdir -p build/ocaml evidence/replay
 [ -x gen/regen_all.py ] && python3 gen/regen_all.py || true
-(cd coq && coq_makefile -f _CoqProject -o Makefile && timeout 3000 make -j16)
+COQMAKE_TIMEOUT=3000 ./coqmake > build/coq_setup.log 2>&1 || { tail -40 build/coq_setup.log; exit 1; }
 (cd harness && cargo build --release --offline)
 echo setup ok
